@@ -236,10 +236,11 @@ benign("C07","plan-charge-in-helper",[
 		return nil, sdkerrors.Wrapf(sdkerrors.ErrUnauthorized, "storage account is expired")
 	}
 
-	paymentInfo.SpaceUsed += totalSize
-	if paymentInfo.SpaceUsed > paymentInfo.SpaceAvailable {
-		return nil, sdkerrors.Wrapf(sdkerrors.ErrUnauthorized, "storage account does not have enough space available %d > %d", paymentInfo.SpaceUsed, paymentInfo.SpaceAvailable)
+	// compared this way round the sum cannot wrap around for a huge file size
+	if totalSize > paymentInfo.SpaceAvailable-paymentInfo.SpaceUsed {
+		return nil, sdkerrors.Wrapf(sdkerrors.ErrUnauthorized, "storage account does not have enough space available %d + %d > %d", paymentInfo.SpaceUsed, totalSize, paymentInfo.SpaceAvailable)
 	}
+	paymentInfo.SpaceUsed += totalSize
 
 	k.SetStoragePaymentInfo(ctx, paymentInfo)
 
@@ -260,10 +261,10 @@ func (k Keeper) chargePlan(ctx sdk.Context, owner string, totalSize int64) error
 		return sdkerrors.Wrapf(sdkerrors.ErrUnauthorized, "storage account is expired")
 	}
 
-	paymentInfo.SpaceUsed += totalSize
-	if paymentInfo.SpaceUsed > paymentInfo.SpaceAvailable {
-		return sdkerrors.Wrapf(sdkerrors.ErrUnauthorized, "storage account does not have enough space available %d > %d", paymentInfo.SpaceUsed, paymentInfo.SpaceAvailable)
+	if totalSize > paymentInfo.SpaceAvailable-paymentInfo.SpaceUsed {
+		return sdkerrors.Wrapf(sdkerrors.ErrUnauthorized, "storage account does not have enough space available %d + %d > %d", paymentInfo.SpaceUsed, totalSize, paymentInfo.SpaceAvailable)
 	}
+	paymentInfo.SpaceUsed += totalSize
 
 	k.SetStoragePaymentInfo(ctx, paymentInfo)
 	return nil
